@@ -66,8 +66,10 @@ def inspect_extension(d, spec, out):
                     g = json.loads(text)
                     rep = g['repository']
                     res['patterns']['instruction'] = rep['instructions']['begin']
+                    res['patterns']['end:instruction'] = rep['instructions']['end']
                     if 'macros' in rep:
                         res['patterns']['macro'] = rep['macros']['begin']
+                        res['patterns']['end:macro'] = rep['macros']['end']
                     res['includes_macros'] = any(p.get('include') == '#macros' for p in rep['main']['patterns'])
                     if 'registers' in rep:
                         res['patterns']['register'] = rep['registers']['match']
@@ -117,6 +119,9 @@ def inspect_extension(d, spec, out):
                                 res['patterns']['register'] = c['registers'][0]['match']
                             if 'compiler_labels' in c:
                                 res['patterns']['predefined'] = c['compiler_labels'][0]['match']
+                            for it in c.get('pop_instruction_end', []):
+                                if it.get('name') == 'instructions' or 'match' in it:
+                                    res['patterns'].setdefault('end:instruction', it.get('match'))
                             res['patterns']['directive'] = c['compiler_directives'][0]['match']
                             res['patterns']['datatype'] = c['data_types_directives'][0]['match']
                             for rule in c['preprocessor_directives'][0]['push']:
